@@ -169,18 +169,20 @@ class TBRMMData:
       geos: Geo IDs for the subset of the geos that will be included in the
         Matched Markets analysis.
     """
-    missing_geos = set(geos) - self.assignable
+    # A tuple would be read as a (row, column) key by .loc below.
+    geo_list = list(geos)
+    missing_geos = set(geo_list) - self.assignable
     if missing_geos:
-      missing_geos = sorted(list(missing_geos))
+      missing_geos = sorted(str(geo) for geo in missing_geos)
       raise ValueError('Unassignable geo(s): ' + ', '.join(missing_geos))
 
     self.geo_assignments = self.geo_eligibility.get_eligible_assignments(
-        geos,
+        geo_list,
         indices=True)
 
     self._geo_index = geos
-    self._array = self.df.loc[geos].to_numpy()
-    self._array_geo_share = np.array(self.geo_share[geos])
+    self._array = self.df.loc[geo_list].to_numpy()
+    self._array_geo_share = np.array(self.geo_share[geo_list])
 
   def aggregate_time_series(self, geo_indices: GeoIndexSet) -> Vector:
     """Return the aggregate the time series over a set of chosen geos.
